@@ -208,7 +208,9 @@ def run_one(drv, rng, V, stats, scenario, n_resets, wseed):
         sim.outputs()
         co = sim.coord
         t0 = tables(co)
+        tie = GenTie(drv, co)
         for r in range(n_resets):
+            tie.before()
             sim.send(0, CC.J(ActionType.ResetGame, request_trajectory=False))
             outs = [parse_reply(p)[1] for c, k, p in sim.outputs() if k == "reply"]
             stats["resets"] += 1
@@ -220,6 +222,7 @@ def run_one(drv, rng, V, stats, scenario, n_resets, wseed):
             sig = {str(k): str(v) for k, v in co._ip_mapping.items() if k != "random"}
             tau = {str(k): str(v) for k, v in co._network_mapping.items()}
             rep["ip_map"], rep["net_map"] = sig, tau
+            tie.after({"scenario": scenario, "seed": wseed, "reset_index": r + 1})
             if len([k for k in tau if private(k.split("/")[0])]) >= 2:
                 stats["nontrivial"].add(json.dumps([scenario, wseed, r, sorted(tau.items())]))
             if len(stats["samples"]) < 2:
@@ -289,12 +292,95 @@ def run_one(drv, rng, V, stats, scenario, n_resets, wseed):
         sim.close()
 
 
+class GenTie:
+    """Correspondence of the generator's network arithmetic with the model function `NSG.relabelPrivate` (theorem
+    `C13_generator`): the value drawn by `fake.ipv4_private()` is recorded, and after every re-labelling the new private
+    networks must be what the model computes from (that value, the private networks before, lowest first)."""
+    mismatches = []      # (description, replay) - a broken correspondence, reported if no concrete failing input is found
+    compared = 0
+    fallbacks = 0
+    host_draws = 0
+
+    def __init__(self, drv, world):
+        self.drv, self.w = drv, world
+        self.draws = []
+        fk = world._faker_object
+        orig = fk.ipv4_private
+
+        def rec(*a, **k):
+            x = orig(*a, **k)
+            self.draws.append(str(x))
+            return x
+        try:
+            fk.ipv4_private = rec
+            self.ok = True
+        except Exception:
+            self.ok = False
+
+    def before(self):
+        import random as _random
+        self._unpatch()
+        self.cum_prev = {str(k): str(v) for k, v in getattr(self.w, "_network_mapping", {}).items()}
+        self.cum_prev_ip = {str(k): str(v) for k, v in getattr(self.w, "_ip_mapping", {}).items() if k != "random"}
+        self.nets_before = [(str(n), [str(x) for x in ips]) for n, ips in self.w._networks.items()]
+        del self.draws[:]
+        self.shuffles = []
+        self._orig_shuffle = _random.shuffle
+
+        def rec(lst, *a, **k):
+            self._orig_shuffle(lst, *a, **k)
+            self.shuffles.append([str(x) for x in lst[:64]])
+        _random.shuffle = rec
+
+    def _unpatch(self):
+        import random as _random
+        if getattr(self, "_orig_shuffle", None) is not None:
+            _random.shuffle = self._orig_shuffle
+            self._orig_shuffle = None
+
+    def after(self, rep):
+        self._unpatch()
+        if not self.ok:
+            return
+        # host addresses: the hosts of every network get the first entries of the shuffled address list of its new network
+        # (model function drawIPs, theorem C13_addresses_one_to_one)
+        if len(self.shuffles) == len(self.nets_before) and all(len(ips) <= 64 for _, ips in self.nets_before):
+            n2 = lambda a: int(netaddr.IPAddress(a))
+            cum_ip = {str(k): str(v) for k, v in self.w._ip_mapping.items() if k != "random"}
+            back = {v: k for k, v in self.cum_prev_ip.items()}      # current-before -> original
+            m = self.drv.ask({"op": "draw_ips", "parts": [[[n2(x) for x in ips], [n2(x) for x in sh]] for (_, ips), sh in zip(self.nets_before, self.shuffles)]})
+            model = {a: b for a, b in m.get("map", [])}
+            real = {n2(x): n2(cum_ip[back.get(x, x)]) for _, ips in self.nets_before for x in ips if back.get(x, x) in cum_ip}
+            GenTie.host_draws += 1
+            if model != real:
+                bad = sorted(k for k in set(model) | set(real) if model.get(k) != real.get(k))[:3]
+                GenTie.mismatches.append((f"host addresses: the game maps {[str(netaddr.IPAddress(k)) for k in bad]} to {[str(netaddr.IPAddress(real[k])) if k in real else None for k in bad]}, "
+                                          f"the model function drawIPs (hosts zipped with the shuffled address list) to {[str(netaddr.IPAddress(model[k])) if k in model else None for k in bad]}", dict(rep, hosts=bad)))
+        cum = {str(k): str(v) for k, v in self.w._network_mapping.items()}
+        step = {self.cum_prev.get(k, k): v for k, v in cum.items()}
+        privs = sorted((n for n in step if netaddr.IPNetwork(n).ip.is_ipv4_private_use()), key=lambda n: (int(netaddr.IPNetwork(n).ip), int(n.split("/")[1])))
+        if not privs or not self.draws:
+            return
+        if len(self.draws) > 10 and all(step[p] == p for p in privs):
+            GenTie.fallbacks += 1       # no placement found: the current private networks are kept
+            return
+        j = lambda n: [int(netaddr.IPAddress(n.split("/")[0])), int(n.split("/")[1])]
+        d = int(netaddr.IPAddress(self.draws[-1]))
+        m = self.drv.ask({"op": "relabel_private", "d": d, "nets": [j(p) for p in privs]})
+        GenTie.compared += 1
+        real = [j(step[p]) for p in privs]
+        if m.get("nets") != real:
+            GenTie.mismatches.append((f"private networks {privs} with drawn value {self.draws[-1]}: the game maps them to {[step[p] for p in privs]}, "
+                                      f"the model function relabelPrivate to {[str(netaddr.IPAddress(a)) + '/' + str(k) for a, k in m.get('nets', [])]}",
+                                      dict(rep, drawn=self.draws[-1], private_before=privs, private_after=[step[p] for p in privs])))
+
+
 # generated scenarios on which a re-labelling once failed (kept as a corpus that runs first)
 GENERATED_CORPUS = [(439108476, 1),      # 192.168.1.0/26 + 192.168.2.0/23: the /23 was moved to an address that is not a multiple of its size (fixed in 9086a03)
                     (439108476, 42), (439108476, 7)]
 
 
-def run_generated(rng, V, stats, n_scenarios, n_resets):
+def run_generated(rng, V, stats, n_scenarios, n_resets, drv=None):
     """Generated topologies (1-4 networks, private ones of mixed prefix lengths, in one or several RFC 1918 blocks,
     public ones, routers and firewall rules): consecutive re-labellings of the bare world; every draw validated and
     every table compared with the initial table pushed through the published maps."""
@@ -322,7 +408,10 @@ def run_generated(rng, V, stats, n_scenarios, n_resets):
             stats["generated_scenarios"] = stats.get("generated_scenarios", 0) + 1
             if len({k.split("/")[1] for k in privs}) > 1:
                 stats["generated_mixed_prefix"] = stats.get("generated_mixed_prefix", 0) + 1
+            tie = GenTie(drv, w) if drv is not None else None
             for r in range(n_resets):
+                if tie:
+                    tie.before()
                 try:
                     world_reset(w)
                 except BaseException as e:
@@ -331,6 +420,8 @@ def run_generated(rng, V, stats, n_scenarios, n_resets):
                 stats["resets"] += 1
                 sig = {str(k): str(v) for k, v in w._ip_mapping.items() if k != "random"}
                 tau = {str(k): str(v) for k, v in w._network_mapping.items()}
+                if tie:
+                    tie.after(dict(rep, reset_index=r + 1))
                 if len(privs) >= 2:
                     stats["nontrivial"].add(json.dumps(["generated", s, r, sorted(tau.items())]))
                 try:
@@ -349,7 +440,7 @@ def run_generated(rng, V, stats, n_scenarios, n_resets):
 def main(tier):
     T = Timer()
     V = Verdict("C13")
-    mods = ["NSG.Properties.C13", "NSG.Properties.C13Goal"]
+    mods = ["NSG.Properties.C13", "NSG.Properties.C13Goal", "NSG.Properties.C13Gen"]
     ok, info = lean_gate(mods)
     if not ok:
         for f in info["failures"]:
@@ -362,7 +453,7 @@ def main(tier):
             runs = [("scenario1_small", 40), ("scenario1", 25), ("three_nets", 40)] if tier == "quick" else [("scenario1_small", 60), ("scenario1", 40), ("three_nets", 60)] * 4
             for sc, n in runs:
                 run_one(drv, rng, V, stats, sc, n, rng.choice([42, 1, 7, 1234]) + (seed() if tier != "quick" else 0))
-            run_generated(rng, V, stats, 250 if tier == "quick" else 3000, 4)
+            run_generated(rng, V, stats, 250 if tier == "quick" else 3000, 4, drv)
             # coordinator level: what agents are SENT under dynamic addresses (start views in the current labelling, also for
             # a player that joins while the re-labelling reset completes; tables after every completed reset)
             if info.get("tables"):
@@ -378,10 +469,15 @@ def main(tier):
                 stats["coordinator_resets_dynamic"] = cstats.get("resets_done_dynamic", 0)
         finally:
             drv.close()
+    if GenTie.mismatches and not V.failures:
+        # the generator no longer corresponds to the model function the theorem is about, and no draw with a concrete defect
+        # (collision, address outside its network, lost privacy or distance) was found in this run
+        V.proof_fail("correspondence NSG.relabelPrivate (theorem C13_generator) <-> NSGCoordinator._create_new_network_mapping: " + GenTie.mismatches[0][0])
     code, nviol = V.finish()
     cov = {"obligations": info.get("obligations", 0), "discharged": info.get("discharged", 0),
-           "checker_cmd": "lake build NSG.Properties.C13 NSG.Properties.C13Goal && lake env lean <#print axioms of every theorem>",
-           "trusted_base": TRUSTED_BASE + ["Faker / random as seeded oracles whose outputs (the published maps) are validated on every reset rather than modelled"],
+           "generator_draws_compared": GenTie.compared, "generator_host_draws_compared": GenTie.host_draws, "generator_fallbacks": GenTie.fallbacks, "generator_mismatches": len(GenTie.mismatches),
+           "checker_cmd": "lake build NSG.Properties.C13 NSG.Properties.C13Goal NSG.Properties.C13Gen && lake env lean <#print axioms of every theorem>",
+           "trusted_base": TRUSTED_BASE + ["Faker / random as seeded oracles: the value drawn for the private networks is recorded and fed to the model generator (relabelPrivate); public networks and host addresses inside each network are validated on every reset rather than modelled"],
            "theorems": info.get("theorems", []), "axioms_seen": info.get("axioms_seen", []),
            "evaluations": stats["resets"], "distinct_nontrivial": len(stats["nontrivial"]),
            "rule": "consecutive resets with use_dynamic_addresses on the three shipped scenarios and on generated topologies (bare world: draws and tables only); per reset: draw validated, all tables compared with the initial tables pushed through the published maps, start view / win conditions / goal text compared with their translations, a translated 9-step script compared with the static game, model walks on the re-labelled tables; non-trivial = re-labelling with >= 2 private networks (distinct maps)",
